@@ -6,6 +6,7 @@
 package main
 
 import (
+	"time"
 	"bufio"
 	"encoding/hex"
 	"encoding/json"
@@ -136,60 +137,106 @@ var slowOps = map[string]bool{}
 
 func runAll(lines []string, workdir string) []string {
 	impl := make([]string, len(lines))
-	var slowIdx []int
+	var slowIdx, fastIdx []int
 	for i, l := range lines {
 		if slowOps[strings.SplitN(l, " ", 2)[0]] {
 			slowIdx = append(slowIdx, i)
 		} else {
-			impl[i] = runOp(l)
+			fastIdx = append(fastIdx, i)
 		}
 	}
 	workers := runtime.NumCPU() - 2
 	if workers < 1 {
 		workers = 1
 	}
-	if len(slowIdx) < 2*workers {
-		for _, i := range slowIdx {
-			impl[i] = runOp(lines[i])
-		}
-		return impl
-	}
+	// Every op runs in a worker process (`harness exec`): a fatal runtime error, an out-of-memory
+	// kill or a hang in the code under test costs one op (reported as crash:… / hang:…), not the run.
 	var wg sync.WaitGroup
+	shard := func(name string, mine []int) {
+		defer wg.Done()
+		sub := make([]string, len(mine))
+		for k, i := range mine {
+			sub[k] = lines[i]
+		}
+		res := runShard(sub, workdir, name)
+		for k, i := range mine {
+			impl[i] = res[k]
+		}
+	}
 	for w := 0; w < workers; w++ {
 		var mine []int
 		for k := w; k < len(slowIdx); k += workers {
 			mine = append(mine, slowIdx[k])
 		}
-		wg.Add(1)
-		go func(w int, mine []int) {
-			defer wg.Done()
-			in := filepath.Join(workdir, fmt.Sprintf("shard%d.ops", w))
-			outf := filepath.Join(workdir, fmt.Sprintf("shard%d.out", w))
-			sub := make([]string, len(mine))
-			for k, i := range mine {
-				sub[k] = lines[i]
-			}
-			writeLines(in, sub)
-			cmd := exec.Command(os.Args[0], "exec", in, outf)
-			wdir := filepath.Join(workdir, fmt.Sprintf("w%d", w))
-			cmd.Env = append(os.Environ(), "VERIF_WORK="+wdir)
-			os.MkdirAll(wdir, 0o755)
-			err := cmd.Run()
-			res := readLinesRaw(outf)
-			for k, i := range mine {
-				if k < len(res) {
-					impl[i] = res[k]
-				} else {
-					impl[i] = fmt.Sprintf("harness:worker-failed %v", err)
-				}
-			}
-			os.RemoveAll(wdir)
-			os.Remove(in)
-			os.Remove(outf)
-		}(w, mine)
+		if len(mine) > 0 {
+			wg.Add(1)
+			go shard(fmt.Sprintf("s%d", w), mine)
+		}
+	}
+	// cheap ops: contiguous chunks keep process start-up negligible
+	fw := workers
+	if len(fastIdx) < 64 {
+		fw = 1
+	}
+	for w := 0; w < fw; w++ {
+		lo, hi := w*len(fastIdx)/fw, (w+1)*len(fastIdx)/fw
+		if hi > lo {
+			wg.Add(1)
+			go shard(fmt.Sprintf("f%d", w), fastIdx[lo:hi])
+		}
 	}
 	wg.Wait()
 	return impl
+}
+
+// runShard executes the lines in a worker process; when the worker dies before it has answered
+// every line, the first unanswered line is the one that killed it: it is reported as
+// crash:process-died (or hang:timeout, written by the worker's watchdog) and a new worker
+// continues with the rest.
+func runShard(sub []string, workdir, name string) []string {
+	in := filepath.Join(workdir, "shard-"+name+".ops")
+	outf := filepath.Join(workdir, "shard-"+name+".out")
+	wdir := filepath.Join(workdir, "w-"+name)
+	var results []string
+	rest := sub
+	for len(rest) > 0 {
+		writeLines(in, rest)
+		os.Remove(outf)
+		os.MkdirAll(wdir, 0o755)
+		cmd := exec.Command(os.Args[0], "exec", in, outf)
+		cmd.Env = append(os.Environ(), "VERIF_WORK="+wdir)
+		err := cmd.Run()
+		res := readLinesRaw(outf)
+		if len(res) > len(rest) {
+			res = res[:len(rest)]
+		}
+		results = append(results, res...)
+		rest = rest[len(res):]
+		if len(res) > 0 && res[len(res)-1] == "hang:timeout" {
+			continue // the watchdog answered for the hanging line
+		}
+		if len(rest) > 0 {
+			results = append(results, fmt.Sprintf("crash:process-died %s", crashClass(err)))
+			rest = rest[1:]
+		}
+		os.RemoveAll(wdir)
+	}
+	os.Remove(in)
+	os.Remove(outf)
+	return results
+}
+
+func crashClass(err error) string {
+	if err == nil {
+		return "exit0"
+	}
+	if ee, ok := err.(*exec.ExitError); ok {
+		if ee.ExitCode() == -1 {
+			return "signal"
+		}
+		return fmt.Sprintf("exit%d", ee.ExitCode())
+	}
+	return "error"
 }
 
 func readLinesRaw(path string) []string {
@@ -313,8 +360,22 @@ func main() {
 		lines := readLines(os.Args[2])
 		f, err := os.Create(os.Args[3])
 		must(err)
+		opTimeout := 900 * time.Second
+		if v := os.Getenv("VERIF_OP_TIMEOUT_S"); v != "" {
+			opTimeout = time.Duration(atoi(v)) * time.Second
+		}
 		for _, l := range lines {
-			r := runOp(l)
+			done := make(chan string, 1)
+			go func() { done <- runOp(l) }()
+			var r string
+			select {
+			case r = <-done:
+			case <-time.After(opTimeout):
+				// the code under test hangs: answer for this line and let the parent restart us
+				f.WriteString("hang:timeout\n")
+				f.Close()
+				os.Exit(3)
+			}
 			if strings.HasPrefix(r, "panic:") && os.Getenv("VERIF_SHOW_PANIC") != "" {
 				fmt.Fprintln(os.Stderr, lastPanic)
 			}
@@ -332,5 +393,8 @@ func main() {
 
 func init() {
 	ops["echo"] = func(a []string) string { return strings.Join(a, " ") }
+	// self-test of the crash / hang isolation (SELFTEST only)
+	ops["selfdie"] = func(a []string) string { os.Exit(7); return "" }
+	ops["selfhang"] = func(a []string) string { select {} }
 	gens["SELFTEST"] = func(g *Gen) { g.Emit("echo a b", "self") }
 }
